@@ -411,7 +411,7 @@ func runVerify(c *core.Ctx) {
 			// (1) dominated by the ok-edge of Verify on the same session
 			ok := false
 			for _, g := range an.GuardingEdges(call.Block()) {
-				x, nilSucc, isNil := an.NilTest(an.BlockIf(g.From))
+				x, nilSucc, isNil := an.NilTest(g.If())
 				if !isNil || g.Succ != nilSucc {
 					continue
 				}
@@ -613,7 +613,7 @@ func runRange(c *core.Ctx) {
 			key := fmt.Sprintf("write:%s#%d", kn(c.P.FuncName(fn)), n)
 			rangeOK, stateOK := false, false
 			for _, g := range an.GuardingEdges(call.Block()) {
-				ifi := an.BlockIf(g.From)
+				ifi := g.If()
 				if bc, trueSucc, ok := an.BoolCallTest(ifi); ok && g.Succ == trueSucc {
 					hasHdr, hasSize := false, false
 					for _, a := range bc.Call.Args {
@@ -719,7 +719,7 @@ func runRange(c *core.Ctx) {
 			for _, tb := range trueBlocks {
 				good := false
 				for _, g := range an.GuardingEdges(tb) {
-					x, y, op, isCmp := an.CmpTest(an.BlockIf(g.From))
+					x, y, op, isCmp := an.CmpTest(g.If())
 					if !isCmp {
 						continue
 					}
@@ -829,7 +829,7 @@ func pathEndsWith(p []string, suffix ...string) bool {
 func settingGuards(b *ssa.BasicBlock) (trueOf, falseOf map[string]bool) {
 	trueOf, falseOf = map[string]bool{}, map[string]bool{}
 	for _, g := range an.GuardingEdges(b) {
-		ifi := an.BlockIf(g.From)
+		ifi := g.If()
 		base, neg := an.CondBase(ifi.Cond)
 		p := fieldPath(base)
 		if len(p) < 2 {
@@ -863,7 +863,7 @@ func runROGuard(c *core.Ctx) {
 	guardedAt = func(site ssa.Instruction, depth int) (bool, string) {
 		fn := site.Parent()
 		for _, g := range an.GuardingEdges(site.Block()) {
-			ifi := an.BlockIf(g.From)
+			ifi := g.If()
 			base, neg := an.CondBase(ifi.Cond)
 			if !pathEndsWith(fieldPath(base), "Storage", "ReadOnly") {
 				continue
